@@ -398,13 +398,15 @@ theorem processor_path_valid (N : Nat) (hN : 1 ≤ N) (ops : List Processor.Op) 
 /-! ## the partition builders -/
 
 open Partition in
-/-- **divide_terminates.** `build_divide`'s `while tree.childless` loop: for every partitioner
-    returning one label per node — one community, as many communities as nodes, absent or huge
-    labels, anything — every cutoff, and every order in which childless nodes are taken, the loop
-    ends after at most Σ(|node| − 1) ≤ N − 1 iterations with no childless node left. -/
-theorem divide_terminates (cutoff : Nat) (o : Partition.DivideOracle)
+/-- **divide_terminates_partial.** (full statement: `build_divide` terminates on every network —
+    false for one input with the code as it stands, see `divide_single_input_counterexample`.)
+    `build_divide`'s `while tree.childless` loop on `N ≥ 2` inputs: for every partitioner returning
+    one label per node — one community, as many communities as nodes, absent or huge labels,
+    anything — every cutoff, and every order in which childless nodes are taken, the loop ends
+    after at most Σ(|node| − 1) = N − 1 iterations with no childless node left. -/
+theorem divide_terminates_partial (cutoff : Nat) (o : Partition.DivideOracle)
     (hfull : ∀ sub, sub.length ≤ (o.part sub).length) (N : Nat) (hN : 2 ≤ N) :
-    ∃ k, Partition.divideLoop cutoff o (N - 1) [List.range N] = some k ∧ k ≤ N - 1 := by
+    ∃ k, Partition.divideLoop cutoff o (N - 1) (Partition.initChildless N) = some k ∧ k ≤ N - 1 := by
   have hmu : mu [List.range N] = N - 1 := by simp [mu]
   have hb : Big [List.range N] := by
     intro P hP
@@ -413,6 +415,29 @@ theorem divide_terminates (cutoff : Nat) (o : Partition.DivideOracle)
     simpa using hN
   obtain ⟨k, hk, hle⟩ := divideLoop_terminates cutoff o hfull (N - 1) _ hb (by omega)
   exact ⟨k, hk, by omega⟩
+
+open Partition in
+/-- **divide_single_input_counterexample.** With one input the root is a leaf but sits in
+    `childless`; `contract_nodes` of a single node changes nothing, so the loop never ends. -/
+theorem divide_single_input_counterexample (cutoff : Nat) (o : Partition.DivideOracle) :
+    ∀ fuel, Partition.divideLoop cutoff o fuel (Partition.initChildless 1) = none :=
+  divideLoop_single_diverges cutoff o 0
+
+open Partition in
+/-- **divide_terminates_repaired.** With the proposed repair of the initial `childless` set the
+    loop terminates for every `N ≥ 1`. -/
+theorem divide_terminates_repaired (cutoff : Nat) (o : Partition.DivideOracle)
+    (hfull : ∀ sub, sub.length ≤ (o.part sub).length) (N : Nat) (hN : 1 ≤ N) :
+    ∃ k, Partition.divideLoop cutoff o (N - 1) (Partition.initChildlessFixed N) = some k := by
+  unfold initChildlessFixed
+  by_cases h : N > 1
+  · rw [if_pos h]
+    obtain ⟨k, hk, _⟩ := divide_terminates_partial cutoff o hfull N (by omega)
+    exact ⟨k, hk⟩
+  · rw [if_neg h]
+    have : N - 1 = 0 := by omega
+    rw [this]
+    exact ⟨0, rfl⟩
 
 open Partition in
 /-- **agglom_complete_partial.** (full statement: `build_agglom` terminates for every
